@@ -7,6 +7,7 @@ import Driver.CompileDrv
 import Driver.SemDrv
 import Driver.Pos
 import Driver.V1
+import Driver.Sched
 open Driver
 
 /-- a trailing field starting with '#' carries human-readable context and is ignored -/
@@ -28,6 +29,7 @@ def dispatch (line : String) : String :=
   | "sem" :: args => handleSem args
   | "pos" :: args => handlePos args
   | "v1" :: args => handleV1 args
+  | "sched" :: args => handleSched args
   | _ => "bad-op"
 
 partial def loop (h : IO.FS.Stream) (out : IO.FS.Stream) : IO Unit := do
